@@ -107,6 +107,8 @@ New(r, voc) ==
     /\ r.ev = "New"
     /\ LET s == [hist |-> <<>>, mode |-> IF r.ok = 1 THEN "ok" ELSE "err",
                  stop |-> "NotStopped", c |-> r.vid, cfgi |-> r.c, bc |-> voc.bc, n |-> voc.n, eos |-> voc.eos,
+                 (* every end-of-sequence id of the vocabulary (TokTrie::with_eos_tokens); eos is the primary one *)
+                 eosx |-> IF "eosx" \in DOMAIN voc THEN SeqToSet(voc.eosx) ELSE {voc.eos},
                  canon |-> voc.canon]
        IN /\ Put(r.e, s)
           /\ PostOk(r, s)
@@ -161,7 +163,7 @@ MaskOrEos(r) ==
     /\ r.ev = "MaskOrEos" /\ Has(r.e) /\ Ok(r.e)
     /\ LET s == eng[r.e] IN
        IF Stopped(r.e)
-       THEN /\ r.ok = 1 /\ SeqToSet(r.set) = {s.eos}
+       THEN /\ r.ok = 1 /\ SeqToSet(r.set) = s.eosx
             /\ PostOk(r, s) /\ UNCHANGED evars
        ELSE IF r.ok = 0
        THEN /\ r.cls = "limit" /\ Put(r.e, Failed(s)) /\ PostOk(r, Failed(s)) /\ UNCHANGED <<F, A>>
@@ -190,7 +192,7 @@ Validate(r) ==
            ELSE /\ r.ok = 1
                 /\ r.n <= Len(seq)
                 /\ LearnSets(ChainPos(s.c, s.hist, seq, r.n)
-                     \cup (IF r.n < Len(seq) /\ (r.n = 0 \/ seq[r.n] # s.eos)
+                     \cup (IF r.n < Len(seq) /\ (r.n = 0 \/ seq[r.n] \notin s.eosx)
                            THEN {NegFact(s.c, s.hist \o Prefix(seq, r.n), seq[r.n + 1])}
                            ELSE {}))
                 /\ LearnObs({<<<<"val", s.c, s.hist, seq>>, r.n>>})
@@ -216,8 +218,8 @@ Acc(r) ==
        /\ s.stop \in {"NoExtension", "EndOfSentence"} => r.v = 1
        /\ LearnObs({<<<<"acc", s.c, s.hist>>, r.v>>})
        /\ IF Stopped(r.e) THEN UNCHANGED A
-          ELSE IF r.v = 1 THEN LearnSets({PosFact(s.c, s.hist, s.eos)})
-          ELSE LearnSets({NegFact(s.c, s.hist, s.eos)})
+          ELSE IF r.v = 1 THEN LearnSets({PosFact(s.c, s.hist, e) : e \in s.eosx})
+          ELSE LearnSets({NegFact(s.c, s.hist, e) : e \in s.eosx})
        /\ PostOk(r, s)
        /\ UNCHANGED eng
 
@@ -264,7 +266,7 @@ Consume(r) ==
             /\ r.st \in NormalStops \ {"NoExtensionBias"}
             (* EOS ends the run only where the state is accepting; a grammar may also name the   *)
             (* EOS id as an ordinary token (<[...]> ranges), then it is consumed like any other  *)
-            /\ r.st = "EndOfSentence" => r.t = s.eos
+            /\ r.st = "EndOfSentence" => r.t \in s.eosx
             /\ LearnSets({PosFact(s.c, s.hist, r.t)})
             /\ LearnObs({<<StopKey(s, s2.hist), r.st>>})
             /\ Put(r.e, s2) /\ PostOk(r, s2)
